@@ -278,7 +278,7 @@ def result_packet(reply):
 
 
 def oracle(case, real, model):
-    if real in ("[8]", "[9]") or model in ("[8]", "[9]"):
+    if real in ("[-8888]", "[-9999]") or model in ("[-8888]", "[-9999]"):
         return "executor rejected the request (malformed case line): real %s model %s" % (real, model)
     # "... so the packet stays well-formed": judged on the REAL bytes of every deciding SetPayload case
     # (the replay of the fixed finding F6 is an empty-data call: its bytes are compared, its well-formedness is K2's business)
